@@ -11,7 +11,7 @@ This module is the correspondence side and the failing-input search:
  2. sequence tie: the library is also built with -finstrument-functions; for every activation of a
     translated routine inside a scenario run the sequence of its direct non-pure callees must be the
     callee sequence of one execution of the generated program (`driver ledger paths`);
- 3. the one statement that is false on the unchanged tree (Props/C18Strict.lean, finding F8) is built
+ 3. the one statement that is false on the unchanged tree (Props/C18Strict.lean, finding C18-A) is built
     separately and tied to the concrete failing call found by (1)."""
 import collections, json, os, re, signal, subprocess
 from concurrent.futures import ThreadPoolExecutor
@@ -76,7 +76,9 @@ def run_one(exe, scen, k, trace=False):
         else:
             what = "crash:exit%d" % p.returncode
         phases = re.findall(r"PHASE (\w+)", err)
-        return {"scen": scen, "k": k, "crash": what, "phase": phases[-1] if phases else "?", "stderr": err[-1500:]}
+        site = re.findall(r"^FAILSITE (.*)$", err, re.M)
+        return {"scen": scen, "k": k, "crash": what, "phase": phases[-1] if phases else "?", "stderr": err[-1500:],
+                "failsite": site[0].split() if site else []}
     try:
         return json.loads(out.split("\n")[-1])
     except ValueError:
@@ -150,6 +152,7 @@ def model_paths(routines):
                        stderr=subprocess.PIPE, timeout=600)
     out = p.stdout.decode().split("\n")
     res = collections.defaultdict(set)
+    verdict = collections.defaultdict(collections.Counter)
     sites = set()
     it = iter(lines)
     cur = None
@@ -162,11 +165,17 @@ def model_paths(routines):
             seq = tuple(e[1:] for e in m.group(2).split() if e.startswith("@"))
             if m.group(1) != "timeout":
                 res[fn_of[names[idx]]].add(seq)
+            for flag, what in (("fb=false", "not balanced after an injected failure"), ("ho=false", "output handle wrong"),
+                               ("pu=false", "pre-existing object touched"), ("fault=double", "double release"),
+                               ("fault=release-un", "release of a never-assigned pointer"), ("ret=timeout", "timeout")):
+                if flag in l:
+                    verdict[names[idx]][what] += 1
             sites.update(seq)
         elif l.startswith("end "):
             idx += 1
         elif l.startswith("bad-op"):
             raise RuntimeError("driver ledger rejected a paths request")
+    model_paths.verdict = {k: dict(v) for k, v in verdict.items()}
     return res, by_fn
 
 
@@ -279,6 +288,30 @@ def tie(res, exe_i, scens, routines, paths):
 
 
 # ----------------------------------------------------------------------------------------- main entry
+def broken_routines(b):
+    """C functions whose evaluation lemma (Proofs/LedgerRuns.lean `runs_<routine>`) or theorem failed"""
+    from tools import laddergen as L
+    fn_of = {cfg.get("name", cfg["fn"]): cfg["fn"] for cfg in L.ROUTINES}
+    names = set()
+    for t in b.get("theorems", []):
+        if t and t.startswith("ledger_"):
+            names.add(re.sub(r"^ledger_(fail_balanced|success_exact|handle_null_or_untouched|preexisting_untouched)_", "",
+                             t).replace("_partial", ""))
+    try:
+        src = open(os.path.join(C.LEAN, "ArgoVerif", "Proofs", "LedgerRuns.lean")).read().split("\n")
+    except OSError:
+        src = []
+    for e in b.get("errors", []):
+        m = re.search(r"Proofs/LedgerRuns\.lean:(\d+):", e)
+        if m:
+            for i in range(min(int(m.group(1)), len(src)) - 1, -1, -1):
+                mm = re.match(r"theorem (?:runs|nonvacuous)_(\w+)", src[i])
+                if mm:
+                    names.add(mm.group(1))
+                    break
+    return sorted({fn_of.get(n, n) for n in names})
+
+
 def report(res, exe, sn, r, sym, known):
     sig = "C18:%s:k=%d:%s" % (sn, r.get("k", 0), sym[0])
     for f in known:
@@ -351,8 +384,8 @@ def run(res, tier, broken):
                       "generated program" % (mism[0]["routine"], mism[0]["scenario"], mism[0]["k"]),
                       {"correspondence": "harness/fi_scen.c trace vs driver ledger paths", "mismatches": mism[:10]},
                       no_input=not bad)
-    # the strict statement (false on the unchanged tree: finding F8)
-    f8 = [b for b in bad if b[0].startswith("pool_add_sched_userpool")]
+    # the strict statement (false on the unchanged tree: finding C18-A)
+    c18a = [b for b in bad if b[0].startswith("pool_add_sched_userpool")]
     res.add_cov(strict_statement="discharged" if ok else "fails (ythread_create releases the caller's scheduler; see "
                 "pool_add_sched_userpool)")
     if ok:
@@ -361,26 +394,27 @@ def run(res, tier, broken):
             res.violation("axiom audit of Props/C18Strict failed", {"problems": problems}, no_input=True)
         else:
             res.add_cov(obligations=len(names), discharged=len(names))
-    elif not f8:
+    elif not c18a:
         res.violation("Props/C18Strict no longer builds and the enumeration shows no failing call",
                       {"broken": [l for l in out.split("\n") if "error" in l][:5]}, no_input=True)
     # broken proof obligations: tie them to the failing inputs found above, or say that none was found
     for b in broken:
         if b.get("kind") != "lean-build":
             continue
-        fns = sorted({re.sub(r"^ledger_(fail_balanced|success_exact|handle_null_or_untouched|preexisting_untouched)_", "",
-                             t).replace("_partial", "") for t in b.get("theorems", []) if t and t.startswith("ledger_")})
+        fns = broken_routines(b)
         hit = []
         for sn, r, sym in bad:
             stack = " ".join(symbolize(exe, r.get("failsite", [])))
             rt = dict((s[0], s[2]) for s in allsc).get(sn)
             if any(f == rt or (f + " (") in stack for f in fns):
                 hit.append("%s k=%d" % (sn, r.get("k", 0)))
-        res.add_cov(broken_obligations={"theorems": b.get("theorems"), "routines": fns, "failing_inputs": hit[:10]})
+        why = {n: v for n, v in getattr(model_paths, "verdict", {}).items() if any(n == f or n.startswith(f) for f in fns)}
+        res.add_cov(broken_obligations={"theorems": b.get("theorems"), "routines": fns, "failing_inputs": hit[:10],
+                                        "model_runs_violating": why})
         if not hit:
             res.violation("theorems about the generated ladder of %s no longer hold and the exhaustive single-fault "
                           "enumeration shows no observable failure for it" % ", ".join(fns),
-                          {"broken": [b], "routines": fns}, no_input=True)
+                          {"broken": [b], "routines": fns, "model_runs_violating": why}, no_input=True)
 
 
 def replay(res, path):
